@@ -386,28 +386,85 @@ func zzC17Kinds() {
 	}
 	cs := &ClientSession{client: &Client{}}
 	ctx := context.Background()
+	// the iterator is started with nil params, with empty params, or from the cursor a manually fetched first page
+	// returned (then it yields exactly what manual paging from that cursor yields: everything after that page)
+	start := vChoice("iteratorStart", 3)
+	cursor := ""
+	skipped := 0
+	if start == 2 {
+		switch kind {
+		case 0:
+			r, err := s.listTools(ctx, &ListToolsRequest{Params: &ListToolsParams{}})
+			vAssert(err == nil, "C17.kinds.no-error")
+			cursor, skipped = r.NextCursor, len(r.Tools)
+		case 1:
+			r, err := s.listResources(ctx, &ListResourcesRequest{Params: &ListResourcesParams{}})
+			vAssert(err == nil, "C17.kinds.no-error")
+			cursor, skipped = r.NextCursor, len(r.Resources)
+		case 2:
+			r, err := s.listResourceTemplates(ctx, &ListResourceTemplatesRequest{Params: &ListResourceTemplatesParams{}})
+			vAssert(err == nil, "C17.kinds.no-error")
+			cursor, skipped = r.NextCursor, len(r.ResourceTemplates)
+		case 3:
+			r, err := s.listPrompts(ctx, &ListPromptsRequest{Params: &ListPromptsParams{}})
+			vAssert(err == nil, "C17.kinds.no-error")
+			cursor, skipped = r.NextCursor, len(r.Prompts)
+		}
+		if cursor == "" {
+			vReach("end")
+			return // a single page: nothing to resume
+		}
+		vReach("from-cursor")
+	}
 	var got []string
 	switch kind {
 	case 0:
-		for t, err := range cs.Tools(ctx, nil) {
+		var p *ListToolsParams
+		if start > 0 {
+			p = &ListToolsParams{Cursor: cursor}
+		}
+		for t, err := range cs.Tools(ctx, p) {
 			vAssert(err == nil, "C17.kinds.no-error")
 			got = append(got, t.Name)
 		}
 	case 1:
-		for r, err := range cs.Resources(ctx, nil) {
+		var p *ListResourcesParams
+		if start > 0 {
+			p = &ListResourcesParams{Cursor: cursor}
+		}
+		for r, err := range cs.Resources(ctx, p) {
 			vAssert(err == nil, "C17.kinds.no-error")
 			got = append(got, r.URI)
 		}
 	case 2:
-		for r, err := range cs.ResourceTemplates(ctx, nil) {
+		var p *ListResourceTemplatesParams
+		if start > 0 {
+			p = &ListResourceTemplatesParams{Cursor: cursor}
+		}
+		for r, err := range cs.ResourceTemplates(ctx, p) {
 			vAssert(err == nil, "C17.kinds.no-error")
 			got = append(got, r.URITemplate)
 		}
 	case 3:
-		for p, err := range cs.Prompts(ctx, nil) {
+		var p *ListPromptsParams
+		if start > 0 {
+			p = &ListPromptsParams{Cursor: cursor}
+		}
+		for p, err := range cs.Prompts(ctx, p) {
 			vAssert(err == nil, "C17.kinds.no-error")
 			got = append(got, p.Name)
 		}
+	}
+	if start == 2 {
+		// exactly the remainder, ascending, all registered
+		vAssert(len(got) == n-skipped, "C17.kinds.iterator-from-a-cursor-yields-the-remainder")
+		for i := range got {
+			if i > 0 {
+				vAssert(got[i-1] < got[i], "C17.kinds.one-stable-ascending-order")
+			}
+		}
+		vReach("end")
+		return
 	}
 	vAssert(len(got) == n, "C17.kinds.every-item-exactly-once")
 	for i := range got {
